@@ -242,6 +242,7 @@ def trace_set(th, tier, seed):
         results.extend(extra)
         results.extend(tlc_schedules(binp, sd, d, tier, seed))
         json.dump(results, open(done, "w"))
+        json.dump(dict(wall_s=round(time.time() - t0, 1)), open(os.path.join(d, "meta.json"), "w"))
         log("generated and validated %d trace files (%d records) in %.0fs" % (len(results), sum(r["records"] for r in results), time.time() - t0))
         return results, d
 
@@ -331,6 +332,12 @@ def check(pid, tier, seed):
     t0 = time.time()
     th = tree_hash()
     results, d = trace_set(th, tier, seed)
+    gen_wall = 0.0
+    if time.time() - t0 < 5:      # served from the cache: report what producing the shared trace set cost
+        try:
+            gen_wall = json.load(open(os.path.join(d, "meta.json")))["wall_s"]
+        except Exception:
+            pass
     known = load_known()
     viols, kfs = [], collections.OrderedDict()
     states = transitions = traces = 0
@@ -406,7 +413,7 @@ def check(pid, tier, seed):
             "x/staking, x/distribution and x/bank are the real keepers of the pinned SDK; their internals are environment",
             "BigNum.java implements exact integer arithmetic (java.math.BigInteger)",
         ],
-        wall_s=round(time.time() - t0, 2), violations=len(seen),
+        wall_s=round(time.time() - t0 + gen_wall, 2), violations=len(seen),
     )
     os.makedirs(os.path.join(ROOT, "evidence"), exist_ok=True)
     json.dump(ev, open(os.path.join(ROOT, "evidence", pid + ".json"), "w"), indent=1)
